@@ -4,10 +4,30 @@
 From Coq Require Import ZArith List Bool Reals Lia Lra.
 From FT.lib Require Import Num Arr ArrLemmas Lower NumArr.
 From FT.gen Require Import Common Interp2d Interp3d Vinterp2d Vinterp3d FteikCommon Fteik2d Fteik3d Ray2d Ray3d.
-From FT.proofs Require Import Sweep2dProofs OperatorsR.
+From FT.proofs Require Import Sweep2dProofs OperatorsR SweepDargs.
 From FT.proofs Require Operators3R.
 Import ListNotations.
 Open Scope R_scope.
+
+(* a 2D pass hands every node update the tuple (dz, dx, 1/dz, 1/dx, 1/dz^2, 1/dx^2) and depends on the spacings only through it (every numeric instance) *)
+Theorem C01_sweep2d_constants :
+  forall (T : Type) (H : Num T),
+       exists
+         F : T * T * T * T * T * T ->
+             arr T -> arr Z -> arr T -> T -> T -> T -> T -> T -> Z -> Z -> bool -> arr T * arr Z,
+         forall (tt : arr T) (ttsgn : arr Z) (slow : arr T) (dz dx zsi xsi zsa xsa vzero : T) (nz nx : Z) (grad : bool),
+         sweep2d tt ttsgn slow dz dx zsi xsi zsa xsa vzero nz nx grad =
+         F (dargs2 dz dx) tt ttsgn slow zsi xsi zsa xsa vzero nz nx grad.
+Proof. exact @SweepDargs.sweep2d_through_dargs2. Qed.
+
+(* a 3D pass hands every node update (dz, dx, dy, 1/dz^2, 1/dx^2, 1/dy^2, their pairwise products in the order zx, zy, xy, and their sum) - the constants the plane-wave exactness theorems below are stated for *)
+Theorem C01_sweep3d_constants :
+  forall (T : Type) (H : Num T),
+       exists
+         F : T * T * T * T * T * T * T * T * T * T -> arr T -> arr Z -> arr T -> Z -> Z -> Z -> bool -> arr T * arr Z,
+         forall (tt : arr T) (ttsgn : arr Z) (slow : arr T) (dz dx dy : T) (nz nx ny : Z) (grad : bool),
+         sweep3d tt ttsgn slow dz dx dy nz nx ny grad = F (dargs3 dz dx dy) tt ttsgn slow nz nx ny grad.
+Proof. exact @SweepDargs.sweep3d_through_dargs3. Qed.
 
 (* the analytic seed: slowness x Euclidean distance from node (i,j) to the source at (zsa,xsa) in grid units, with per-axis spacings *)
 Theorem C01_t_ana_is_distance_times_slowness :
@@ -155,6 +175,8 @@ Theorem C01_sweep3d_plane_wave :
        set tt [i; j; k] (pymin4 (get 0 tt [i; j; k]) t1 t2 (T0 + s * (a * dz + b * dx + c * dy))).
 Proof. exact @Operators3R.sweep_op3_plane_wave. Qed.
 
+Print Assumptions C01_sweep2d_constants.
+Print Assumptions C01_sweep3d_constants.
 Print Assumptions C01_t_ana_is_distance_times_slowness.
 Print Assumptions C01_t_anad_is_its_gradient.
 Print Assumptions C01_spherical_operator_exact.
